@@ -47,7 +47,7 @@ ASSUMPTIONS = [
 ]
 BOUNDS = {
     'quick': 'Axi2Reg on streams with the TLAST/TKEEP side-band driven freely (stream 8 and 16 bits); Reg2Axi reg_in widths 9, 12, 17 (partial top byte); Axi2Reg q width 2 / stream 8 bits / tdata in {0x00,0x01,0x02,0xFF}; Reg2Axi reg_in width 2 (all 4 values) / stream 8 bits; '
-             'all 2^k control/handshake bits per step; full closure',
+             'all 2^k control/handshake bits per step; full closure; the observation right after getSimulator() (before any clock call)',
     'thorough': 'Axi2Reg q widths 1,2,3,8 with stream 8 and q width 2 with stream 16, tdata = all 8 low-bit patterns x {0x00,0xF8} high '
                 'bits (x 0xFF00 for stream 16); Reg2Axi reg_in widths 1,2,3 (all values), 8 and 9 (stream 16; boundary values); composed '
                 'Axi2Reg -> (wire | register) -> Reg2Axi with VitisKernelFSM closing start/done; full closure',
